@@ -591,6 +591,24 @@ func c15MediaParse(ct string) (mp string, charset string, has bool, parseErr boo
 	return "cs:" + verifh.Hex(cs), cs, true, false
 }
 
+// c15Counter: histogram buckets with a "must be reached" check (a lane must not pass vacuously).
+type c15Counter struct {
+	s *verifh.Session
+	n map[string]int
+}
+
+func c15NewCounter(s *verifh.Session) *c15Counter { return &c15Counter{s, map[string]int{}} }
+
+func (c *c15Counter) count(k string) { c.s.Count(k); c.n[k]++ }
+
+func (c *c15Counter) must(t interface{ Errorf(string, ...any) }, buckets ...string) {
+	for _, b := range buckets {
+		if c.n[b] == 0 {
+			t.Errorf("generator never reached bucket %q", b)
+		}
+	}
+}
+
 func c15IsPrefixOfAny(out string, set []string) bool {
 	for _, m := range set {
 		if strings.HasPrefix(m, out) {
